@@ -22,6 +22,20 @@ def _cols(rng, card, ncol, den=10, zeros=False):
     return [[cols[j][r] for j in range(ncol)] for r in range(card)]
 
 
+def hmm_template(rng, tid):
+    """the textbook shape: one persistent hidden variable with two observation variables per slice (only v0 is an interface node),
+    so that evidence on different NON-interface variables in different slices is plentiful"""
+    vs = ["v0", "v1", "v2"]
+    dom = {v: ["s0", "s1"] for v in vs}
+    cpd0 = {"v0": {"parents": [], "den": 10, "tab": _cols(rng, 2, 1)},
+            "v1": {"parents": ["v0"], "den": 10, "tab": _cols(rng, 2, 2)},
+            "v2": {"parents": ["v0"], "den": 10, "tab": _cols(rng, 2, 2)}}
+    cpd1 = {"v0": {"parents": [["v0", 0]], "den": 10, "tab": _cols(rng, 2, 2)},
+            "v1": {"parents": [["v0", 1]], "den": 10, "tab": cpd0["v1"]["tab"]},
+            "v2": {"parents": [["v0", 1]], "den": 10, "tab": cpd0["v2"]["tab"]}}
+    return {"id": tid, "vars": vs, "dom": dom, "cpd0": cpd0, "cpd1": cpd1, "regular": True, "inter": {"v0": ["v0"], "v1": [], "v2": []}}
+
+
 def make_templates(rng, n, max_vars=3, ternary=False, regular=True):
     """regular = the region in which the interface algorithm as coded is meant to work: every variable takes part in an
     intra-slice edge (when there are >= 2 variables) and inter-slice edges are persistence edges v(t) -> v(t+1) of a
@@ -87,6 +101,8 @@ def run(ctx):
     irr = make_templates(random.Random(ctx.seed + 171), 1, regular=False)[0]
     irr["id"] = len(tm) + 1
     tm.append(irr)
+    hmm = hmm_template(rng, len(tm) + 1)
+    tm.append(hmm)
     f = os.path.join(ctx.work, "tmpl.json")
     with open(f, "w") as fh:
         json.dump(tm, fh)
@@ -96,7 +112,12 @@ def run(ctx):
     cap = 4000 if ctx.thorough else 360      # each DBN query rebuilds and calibrates two clique trees (~0.1 s): replay a seeded sample
     if len(cases) > cap:
         rs = random.Random(ctx.seed + 1717)
-        cases = rs.sample(cases, cap)
+        # a third of the budget: smoothing questions of the HMM template with evidence on two different observation variables
+        pref = [c for c in cases if c["tmpl"] == hmm["id"] and len(c["ev"]) == 2 and len({e["n"][0] for e in c["ev"]}) == 2
+                and len({e["n"][1] for e in c["ev"]}) == 2 and all(e["n"][0] != "v0" for e in c["ev"])]
+        pref = rs.sample(pref, min(len(pref), cap // 3))
+        rest = [c for c in cases if c not in pref]
+        cases = pref + rs.sample(rest, cap - len(pref))
     by = {}
     for c in cases:
         by.setdefault(c["tmpl"], []).append(c)
